@@ -37,7 +37,7 @@ def seeds_table():
     if os.path.exists(mp):
         matrix = json.load(open(mp))
     out = ['| seeded change | what was changed | caught by (own property) | also flagged by |', '|---|---|---|---|']
-    caught = missed = 0
+    caught = missed = retired = 0
     for d in sorted(glob.glob(V + '/seeded/C*-m*')):
         name = os.path.basename(d)
         m = json.load(open(d + '/meta.json'))
@@ -48,6 +48,10 @@ def seeds_table():
             summ = summ[:147] + '…'
         summ = summ.replace('|', '/')
         own = m.get('caught_by') or []
+        if m.get('retired'):
+            retired += 1
+            out.append('| %s | %s | retired: %s | |' % (name, summ, m['retired'].replace('|', '/')))
+            continue
         if m.get('detected'):
             caught += 1
             own_s = '; '.join(sorted({k.split(' | ')[0] for k in own}))
@@ -57,7 +61,7 @@ def seeds_table():
         others = sorted(p for p in matrix.get(name, {}) if p != prop)
         out.append('| %s | %s | %s | %s |' % (name, summ, own_s.replace('|', '/'), ' '.join(others)))
     out.append('')
-    out.append('%d seeded changes; %d flagged by the check of the property they were written against, %d not.' % (caught + missed, caught, missed))
+    out.append('%d seeded changes (%d more retired after a repair replaced the code they changed); %d flagged by the check of the property they were written against, %d not.' % (caught + missed, retired, caught, missed))
     return '\n'.join(out)
 
 
